@@ -180,7 +180,7 @@ class Ctx:
                     ok, info = replay(m)
                 except Exception as ex:     # replay harness itself failed
                     ok, info = None, {"replay_error": f"{type(ex).__name__}: {ex}", "tb": traceback.format_exc()[-800:]}
-                rec["replayed"] = ok
+                rec["replayed"] = None if ok is None else bool(ok)
                 rec["replay_info"] = _jsonable(info)
         return rec
 
